@@ -436,7 +436,7 @@ class C11(Prop):
     props_file = 'Props/C11.v'
     imports = ['Model.StreamWrite', 'Model.StreamWriteObs']
     quick_n = 450
-    thorough_n = 6000
+    thorough_n = 5000
     rule = ('real TCPServer/UNIXServer (1 or 2 accepted connections, interleaved), TCPClient/UNIXClient and File '
             'components driven in-process with a scripted send()/fd_write double and the real BasePoller bookkeeping; '
             'ops = write payload (empty ... multi-megabyte, distinct bytes) / close (also server-wide close) / writability '
